@@ -5,6 +5,8 @@ cd /verif
 HC=$(git -C /verif log --format=%h -1 -- harness check)
 for d in seeded/*/; do
   id=$(basename "$d")
+  # ONLY='^(C01|C17)-' restricts the pass to the ids matching the regular expression
+  if [ -n "$ONLY" ] && ! echo "$id" | grep -Eq "$ONLY"; then continue; fi
   # resume: skip what was already re-confirmed against this /repo HEAD (pass FORCE=1 to redo)
   if [ -z "$FORCE" ] && python3 -c "import json,sys,subprocess;h=subprocess.run(['git','-C','/repo','log','--format=%h','-1'],capture_output=True,text=True).stdout.strip();m=json.load(open('$d/meta.json'));sys.exit(0 if m['confirmed'].get('repo_head')==h and m.get('harness_commit')=='$HC' else 1)"; then continue; fi
   prop=$(python3 -c "import json;print(json.load(open('$d/meta.json'))['breaks_property'])")
